@@ -1,6 +1,7 @@
 (** Property C19 — Spacing options mean what they say at the places they are reported to govern. *)
 From Coq Require Import List ZArith Bool.
 From UV Require Import Model.ConfigDefs Model.Config Gen.Registry Model.SpaceDefs Model.SpaceApply Gen.SpaceRules Proofs.SpaceProofs.
+From UV Require Model.Render Proofs.RenderProofs Proofs.RenderNlCont.
 Import ListNotations.
 Local Open Scope Z_scope.
 
@@ -43,3 +44,18 @@ Theorem C19_gap_obeys_value : forall av min_sp noc pce,
   (av = 0 -> pce <> 0 -> pce <= noc -> (g > 0 <-> noc - pce > 0) /\ g = noc - pce).
 Proof. exact apply_gap_spec. Qed.
 Print Assumptions C19_gap_obeys_value.
+
+(** where the WRITER decides: the column of a backslash-newline that was not aligned is recomputed in output_text();
+    sp_before_nl_cont = force gives exactly one blank in front of the backslash, remove none (model B, tied to output.cpp
+    by the Render correspondence and by the written-gap oracle of the check) *)
+Theorem C19_nl_cont_force_writes_one_blank : forall o rp c s,
+  RenderProofs.quiet s -> Render.spaces s = 0 -> Render.was_aligned c = false -> Render.sp_before_nl_cont o = 3 ->
+  Render.out (Render.render_nlcont o rp c s) = Render.NL :: Render.Ch 92 :: Render.Ch 32 :: Render.out s.
+Proof. exact RenderNlCont.nlcont_force_one_blank. Qed.
+Print Assumptions C19_nl_cont_force_writes_one_blank.
+
+Theorem C19_nl_cont_remove_writes_no_blank : forall o rp c s,
+  RenderProofs.quiet s -> Render.spaces s = 0 -> Render.was_aligned c = false -> Render.sp_before_nl_cont o = 2 ->
+  Render.out (Render.render_nlcont o rp c s) = Render.NL :: Render.Ch 92 :: Render.out s.
+Proof. exact RenderNlCont.nlcont_remove_no_blank. Qed.
+Print Assumptions C19_nl_cont_remove_writes_no_blank.
